@@ -3,14 +3,16 @@
 (* the radix, plaintext precision below / equal / above the ciphertext's, decryption precision,  *)
 (* extreme digits, noise parameters).  One state per descriptor.                                *)
 EXTENDS Integers, Sequences, TLC, Json
-CONSTANTS Bs, Dims, MaxS, PCs
+CONSTANTS Bs, Dims, DimsX, MaxS, PCs
 NoiseTable == << <<10, 10>>, <<32, 192>> >>
 VARIABLE c
 Init == c = [op |-> "none"]
 Next == /\ c.op = "none"
-        /\ \E b \in Bs, nl \in Dims, s \in 1..MaxS, ps \in 1..(MaxS + 1), pd \in 1..(MaxS + 1), ko \in {0, 1, 2}, pc \in PCs, nz \in 1..2 :
-             /\ ko < b /\ s * b <= 24 /\ ps * b <= 24 /\ pd * b <= 24
+        /\ \E b \in Bs, nl \in Dims, s \in 1..MaxS, ps \in 1..(MaxS + 1), pd \in 1..(MaxS + 1), ko \in {0, 1, 2}, pc \in PCs, nz \in 1..2, bd \in Bs :
+             /\ ko < b /\ s * b <= 24 /\ ps * b <= 24 /\ pd * bd <= 24
+             \* the plaintext decrypted into may use another radix; those shapes take the two extreme noise / plaintext choices only
+             /\ (bd # b => (pc = 2 /\ nz = 1 /\ nl \in DimsX))
              /\ c' = [op |-> "lwe_encdec", n |-> 8, nlwe |-> nl, bin |-> b, bkey |-> b, bout |-> b, sin |-> s, skey |-> 2, sout |-> s, rin |-> 1, rout |-> 1, dnum |-> 1, dsize |-> 1,
-                      koff |-> ko, ps |-> ps, pdec |-> pd, pc |-> pc, sigma10 |-> NoiseTable[nz][1], bound10 |-> NoiseTable[nz][2]]
+                      koff |-> ko, ps |-> ps, pdec |-> pd, bdec |-> bd, pc |-> pc, sigma10 |-> NoiseTable[nz][1], bound10 |-> NoiseTable[nz][2]]
 Emit == c.op # "none" => PrintT(<<"DESC", ToJson(c)>>)
 =============================================================================
